@@ -242,6 +242,11 @@ pub enum Mutation {
     Clear { path: Vec<usize> },
     /// Seq: swap two elements
     Swap { path: Vec<usize>, i: usize, j: usize },
+    /// Seq at `path`: every element (itself a Seq / Bytes) loses its last `cnt` items,
+    /// gains `cnt` copies of its last item, or is emptied
+    ShortenEach { path: Vec<usize>, cnt: usize },
+    LengthenEach { path: Vec<usize>, cnt: usize },
+    ClearEach { path: Vec<usize> },
     /// Seq at `path`: xor bit `bit` into every element (u128 / byte arrays)
     XorBitEach { path: Vec<usize>, bit: u32 },
     /// Vec<Option<_>>: the first Some becomes None
@@ -324,6 +329,52 @@ pub fn apply_tree(
                     b[i] ^= 1 << (bit % 8);
                 }
                 _ => return None,
+            }
+        }
+        Mutation::ShortenEach { .. } | Mutation::LengthenEach { .. } | Mutation::ClearEach { .. } => {
+            let (path, cnt, mode) = match m {
+                Mutation::ShortenEach { path, cnt } => (path, *cnt, 0),
+                Mutation::LengthenEach { path, cnt } => (path, *cnt, 1),
+                Mutation::ClearEach { path } => (path, 0, 2),
+                _ => unreachable!(),
+            };
+            let (nd, _) = node_mut(&mut v, sch, path)?;
+            let V::Seq(items) = nd else { return None };
+            let mut changed = false;
+            for it in items.iter_mut() {
+                // a tuple element: apply to every Seq / Bytes field of it
+                let mut fields: Vec<&mut V> = match it {
+                    V::Tup(fs) => fs.iter_mut().collect(),
+                    other => vec![other],
+                };
+                for f in fields.iter_mut() {
+                    match f {
+                        V::Seq(xs) => {
+                            match mode {
+                                0 => xs.truncate(xs.len().saturating_sub(cnt)),
+                                1 => {
+                                    if let Some(last) = xs.last().cloned() {
+                                        xs.extend(std::iter::repeat_n(last, cnt));
+                                    }
+                                }
+                                _ => xs.clear(),
+                            }
+                            changed = true;
+                        }
+                        V::Bytes(b) => {
+                            match mode {
+                                0 => b.truncate(b.len().saturating_sub(cnt)),
+                                1 => b.extend(std::iter::repeat_n(0x5a, cnt)),
+                                _ => b.clear(),
+                            }
+                            changed = true;
+                        }
+                        _ => {}
+                    }
+                }
+            }
+            if !changed {
+                return None;
             }
         }
         Mutation::XorBitEach { path, bit } => {
